@@ -82,3 +82,57 @@ Proof.
   pose proof (hpack_decode_no_panic (firstn (N.to_nat n) r) (wf_bytes_firstn _ _ Hwr) Hfit) as Hh.
   destruct (hpack_decode (firstn (N.to_nat n) r)); [reflexivity|reflexivity|discriminate].
 Qed.
+
+(* soundness of the literal decoder on ALL inputs: an accepted literal has the RFC 7541 5.1 length, its
+   value is made of exactly that many payload octets, what follows is left unread, and the H bit (lowest
+   flag bit above the length prefix) selects raw octets or Huffman decoding of exactly those octets *)
+Theorem ps_decode_sound size bs v rest :
+  2 <= size <= 8 -> wf_bytes bs -> ps_decode size bs = Ok (v, rest) ->
+  exists f n r, rfc_pi_decode (size - 1) bs = Some (f, n, r) /\ n <= len r /\
+    rest = skipn (N.to_nat n) r /\
+    (N.land f 1 = 0 -> v = firstn (N.to_nat n) r) /\
+    (N.land f 1 <> 0 -> 8 * n + 8 < 2 ^ 32 /\ hpack_decode (firstn (N.to_nat n) r) = Ok v).
+Proof.
+  intros Hs Hwf. unfold ps_decode, ps_dec_size_offset, ps_dec_remaining_lt, ps_dec_h_mask, ps_dec_guard_width, ps_guard_value, ps_dec_guard_ops, sat64.
+  cbn [fold_left fst snd].
+  destruct (N.ltb_spec size 1) as [?|_]; [lia|].
+  destruct (pi_decode (size - 1) bs) as [[[f n] r]|e|p] eqn:Hpd; [|destruct e; discriminate|discriminate].
+  apply pi_decode_sound in Hpd; [|lia|assumption].
+  destruct (N.ltb_spec (len r) n) as [|Hge]; [discriminate|].
+  destruct (N.eqb_spec (N.land f 1) 0) as [Hraw|Hhuff].
+  - intros H. inversion H; subst. exists f, n, r.
+    split; [assumption|]. split; [assumption|]. split; [reflexivity|]. split; [reflexivity|].
+    intros Hc. contradiction.
+  - destruct (N.ltb_spec (2 ^ 32 - 1) (N.min (N.min (n * 8) (2 ^ 64 - 1) + 8) (2 ^ 64 - 1))) as [|Hguard]; [discriminate|].
+    destruct (hpack_decode (firstn (N.to_nat n) r)) as [v'|e|p] eqn:Hh; try discriminate.
+    intros H. inversion H; subst. exists f, n, r.
+    split; [assumption|]. split; [assumption|]. split; [reflexivity|]. split; [intros Hc; contradiction|].
+    intros _. split; [|exact Hh].
+    change (2 ^ 32 - 1) with 4294967295 in Hguard. change (2 ^ 64 - 1) with 18446744073709551615 in Hguard.
+    change (2 ^ 32) with 4294967296. lia.
+Qed.
+
+Lemma raw_flag_check : forall_below 128 (fun f => N.land (2 * f) 1 =? 0) = true.
+Proof. vm_compute. reflexivity. Qed.
+
+(* the raw (H = 0) branch: a length-prefixed octet string is returned unchanged *)
+Theorem ps_decode_raw size flags payload r :
+  2 <= size <= 8 -> flags < 2 ^ (8 - size) -> wf_bytes payload -> len payload < 2 ^ 62 -> wf_bytes r ->
+  ps_decode size (rfc_pi_encode (size - 1) (2 * flags) (len payload) ++ payload ++ r) = Ok (payload, r).
+Proof.
+  intros Hs Hf Hwp Hlen Hr.
+  assert (Hf128 : flags < 128).
+  { assert (2 ^ (8 - size) <= 2 ^ 6) by (apply N.pow_le_mono_r; lia). change (2 ^ 6) with 64 in *. lia. }
+  assert (Hf' : 2 * flags < 2 ^ (8 - (size - 1))).
+  { replace (8 - (size - 1)) with (N.succ (8 - size)) by lia. rewrite N.pow_succ_r'. lia. }
+  change (2 ^ 62) with 4611686018427387904 in Hlen.
+  destruct (pi_roundtrip (size - 1) (2 * flags) (len payload) (payload ++ r)) as (hd & Hhd & Hpd);
+    [lia|exact Hf'|change (2 ^ 63) with 9223372036854775808; lia|apply wf_bytes_app; auto|].
+  rewrite pi_encode_is_rfc in Hhd; [|lia|exact Hf'|change (2 ^ 64) with 18446744073709551616; lia].
+  inversion Hhd; subst hd.
+  unfold ps_decode, ps_dec_size_offset, ps_dec_remaining_lt, ps_dec_h_mask.
+  destruct (N.ltb_spec size 1) as [?|_]; [lia|]. rewrite Hpd.
+  destruct (N.ltb_spec (len (payload ++ r)) (len payload)) as [Hc|_]; [rewrite len_app in Hc; lia|].
+  pose proof (forall_below_spec 128 _ raw_flag_check flags Hf128) as Hz. cbv beta in Hz. rewrite Hz.
+  unfold len. rewrite Nat2N.id, firstn_app_exact, skipn_app_exact. reflexivity.
+Qed.
